@@ -103,6 +103,10 @@ class Engine(object):
         self.timeout = TIMEOUTS[t.draw(len(TIMEOUTS))]
         self.window = 1 + t.draw(16)
         self.buffer_size = BUFFERS[t.draw(len(BUFFERS))]
+        if t.draw(3) == 0:
+            # any size a little below a power of two (where a receive length
+            # derived from it changes)
+            self.buffer_size = max(32, (1 << (6 + t.draw(4))) - t.draw(41))
         self.policy = FaultPolicy.draw(
             t, ["req_loss", "rep_loss", "rep_delay", "rep_dup", "req_delay",
                 "req_dup", "retryable_rc", "fatal_rc", "host_stall",
